@@ -402,7 +402,7 @@ def gen_range_args(g, typings, steps, bkinds, shapes, R, rng, ncase_extra, rev=F
                             cases.append(('(%s, 4, 0, 0)' % h, hinfo))
                             cases.append(('(1, %s, 0, 0)' % h, hinfo))
                     # static expectation: object targets are only optimised for literal or C-typed bounds
-                    expect = typing in CTYPES or (typing == 'untyped' and bk == 'cvar' and shape != 'rebind')
+                    expect = step != 0 and (typing in CTYPES or (typing == 'untyped' and bk == 'cvar' and shape != 'rebind'))
                     g.add(nm, ('revrange-' if rev else 'range-') + bk, typing, shape, src, cases, 'cfor',
                           {'step': step, 'bkind': bk, 'rev': rev}, expect_opt=expect)
 
